@@ -155,7 +155,7 @@ verus_unit("rescuev", "rescuev", ["C11"], [
 native_unit("hash_native", "winter-crypto", "crypto", "native/hash_bounded.rs", ["C11", "C10", "C19"],
             ["Blake3_256::{hash, merge, merge_with_int, hash_elements}", "Blake3_192::{hash, merge, merge_with_int, hash_elements}", "Sha3_256::{hash, merge, merge_with_int, hash_elements}", "ByteDigest::digests_as_bytes", "FieldElement::elements_as_bytes"],
             "the byte-oriented hashers equal their documented definition computed directly with the blake3 / sha3 crates: hash(bytes) == H(bytes) (24-byte truncation for Blake3_192); merge([a, b]) == H(a || b); merge_with_int(seed, v) == H(seed || le64(v)); hash_elements == H(canonical little-endian encodings of the residues) whatever the internal representation (Montgomery words, lazy f62 representatives) and whether the residues are typed as base or as quadratic / cubic extension elements",
-            "NATIVE EXECUTION, not a proof: 3 hashers x 3 base fields; byte strings of every length 0..=200 (seeded content); 40 seeded digest pairs x 17 integers at the 64-bit boundaries and around the moduli; element lists of 0..=20 elements produced by additions, negations, subtractions and products (non-normalised representatives), regrouped into quadratic / cubic elements")
+            "NATIVE EXECUTION, not a proof: 3 hashers x 3 base fields; byte strings of every length 0..=200 (seeded content); 40 seeded digest pairs x 17 integers at the 64-bit boundaries and around the moduli; element lists of 0..=24 elements and of 26 longer lengths around 64 / 128 / 256 / 1024 bytes and elements (30 .. 2049) produced by additions, negations, subtractions and products (non-normalised representatives), regrouped into quadratic / cubic elements")
 
 
 native_unit("rescue_native", "winter-crypto", "crypto", "native/rescue_bounded.rs", ["C11", "C03", "C04", "C19"],
